@@ -537,7 +537,7 @@ func c20Broker(c *fw.Ctx, round int) {
 }
 
 func runC20(c *fw.Ctx) {
-	c.Rule = "built with the Go race detector (GORACE halt_on_error=0, reports collected by the parent and de-duplicated by the pair of outermost non-runtime frames). Repeated randomized stress on all cores, few keys, many goroutines: (1) session registry Create/Get/Delete/ListSessions checked with porcupine against a per-key register; (2) identifier pool Get/Put with a shadow set updated under the harness's lock; (3) in-flight table Insert/Ack/Expire on shared keys with a concurrent sweeper, exactly one outcome per registration; (4) both tries, writers on distinct keys and readers on all (also on stores rebuilt by Load), every distinct-key effect present afterwards; (5) replicated state: local mutators on distinct keys + NotifyMsg/MergeRemoteState/LocalState concurrently, final listing = LWW reference; (6) a session's filter list AddTopic/RemoveTopic/GetTopics; (7) two broker nodes with 30 clients connecting, subscribing, publishing QoS 1/2, disconnecting, while forced expiry sweeps and push/pull exchanges run; conservation oracle of C02 on the steady subscribers. Any race report is a violation. distinct = (workload, round); non-trivial = all"
+	c.Rule = "built with the Go race detector (GORACE halt_on_error=0, reports collected by the parent and de-duplicated by the pair of outermost non-runtime frames). Repeated randomized stress on all cores, few keys, many goroutines: (1) session registry Create/Get/Delete/ListSessions checked with porcupine against a per-key register; (2) identifier pool Get/Put with a shadow set updated under the harness's lock; (3) in-flight table Insert/Ack/Expire on shared keys with a concurrent sweeper, exactly one outcome per registration; (4) both tries, writers on distinct keys and readers on all (also on stores rebuilt by Load), every distinct-key effect present afterwards; (5) replicated state: local mutators on distinct keys + NotifyMsg/MergeRemoteState/LocalState concurrently, final listing = LWW reference; (6) a session's filter list AddTopic/RemoveTopic/GetTopics; (7) two broker nodes with 30 clients connecting, subscribing, publishing QoS 1/2, disconnecting, while forced expiry sweeps and push/pull exchanges run; conservation oracle of C02 on the steady subscribers; (8) the lifecycle / takeover / will / tenant / retransmission / cross-node scenarios of C11, C12, C13, C17, C03 and C14 re-run under the detector (their own oracles are not judged here). Any race report is a violation. distinct = (workload, round); non-trivial = all"
 	c.Assume("the race detector only sees interleavings the stress produced, and only Go synchronisation")
 	c.Extra("gomaxprocs", runtime.GOMAXPROCS(0))
 	rounds := c.Pick(3, 30)
@@ -551,6 +551,42 @@ func runC20(c *fw.Ctx) {
 	}
 	for r := 0; r < c.Pick(2, 12); r++ {
 		c20Broker(c, r)
+	}
+	// (8) the session-lifecycle, takeover, will, tenant, retransmission and cross-node scenarios of the
+	// other checks, re-run here only so that the race detector sees those code paths (conn.go, packets.go,
+	// nodes.go, grpc.go); their own oracles report to a scratch context - those verdicts belong to C11-C17
+	aux := fw.NewCtx("C20-aux", c.Tier, c.Seed)
+	{
+		var wg sync.WaitGroup
+		run := func(f func()) { wg.Add(1); go func() { defer wg.Done(); f() }() }
+		causes := []string{"disconnect", "close", "second-connect", "garbage", "displaced-same-node", "displaced-other-node", "node-failure", "silence"}
+		for i, cause := range causes {
+			i, cause := i, cause
+			run(func() {
+				c11CleanupScenario(aux, 9000+i, c11Cleanup{cause: cause, nNodes: 2, host: i % 2, filters: []string{"c11/a", "c11/+/b"}, unsub: i % 2})
+			})
+		}
+		for i := 0; i < c.Pick(4, 40); i++ {
+			i := i
+			run(func() {
+				c12Run(aux, 9000+i, c12Scenario{nNodes: 2, places: []int{0, 1, i % 2}, oldEvent: []string{"ping", "close"}, when: []string{"before-gossip", "after-gossip"}})
+			})
+			run(func() { c17Run(aux, 9000+i) })
+			run(func() { c03Scenario(aux, 9000+i) })
+			run(func() { c14Scenario(aux, 9000+i) })
+		}
+		for i, cause := range []string{"close", "garbage", "node-failure", "disconnect"} {
+			i, cause := i, cause
+			run(func() {
+				c13Run(aux, 9000+i, c13Scenario{cause: cause, nNodes: 2, host: i % 2, willQos: i % 3, retain: i%2 == 0, willTopic: "w/a/x", filters: []string{"w/a/x", "w/#"}})
+			})
+		}
+		wg.Wait()
+		c.Observe("lifecycle_scenarios_under_race_detector", 8+4+4*c.Pick(4, 40))
+		c.Observe("lifecycle_scenario_oracle_violations_not_counted_here", aux.Violations())
+		if aux.Violations() > 0 {
+			c.Extra("lifecycle_scenario_oracle_reports", aux.ViolationSummaries())
+		}
 	}
 	c.Sample(map[string]interface{}{"workload": "registry", "goroutines": 8, "ops_per_goroutine": 12, "keys": 3})
 	c.Sample(map[string]interface{}{"workload": "broker storm", "clients": 30, "nodes": 2})
